@@ -880,9 +880,6 @@ func (s ttSpec) spaceApplies() bool {
 	if (s.CF == "named" || s.CF == "named-inorder") && !d.typed {
 		return false // named arguments are a feature of typed functions: elsewhere the call is an arity error
 	}
-	if s.Feat == "nontail-self" {
-		return true
-	}
 	return true
 }
 
